@@ -390,6 +390,20 @@ structure ScanSt where
   r : Reader.Reader
   seenOpt : Bool := false
 
+/-- the `(rcode, tsig_err, mode)` triple of `verify_tsig_and_write_tsig_rr` -/
+def tsigOutcome (res : Out Tsig.VerificationError Unit) (alg : Tsig.Algorithm) (tsigRr : Tsig.ReadTsigRr)
+    (secret : List UInt8) : Nat × Nat × Option TsigMode :=
+  match res with
+  | .ok () => (RC "NOERROR", XRC "NOERROR",
+      some (.response (toWriterAlg alg) (Tsig.ReadTsigRr.mac tsigRr) secret))
+  | .err .BadSig => (RC "NOTAUTH", XRC "BADVERSBADSIG",
+      (WName.parse alg.name).map (fun x => .unsigned x.1))
+  | .err .BadTime => (RC "NOTAUTH", XRC "BADTIME",
+      some (.response (toWriterAlg alg) (Tsig.ReadTsigRr.mac tsigRr) secret))
+  | .err .FormErr => (RC "FORMERR", XRC "BADVERSBADSIG",
+      (WName.parse alg.name).map (fun x => .unsigned x.1))
+  | .panic => (0, 0, none)
+
 /-- the TSIG branch once the record has passed the syntactic checks (`ReadTsigRr::try_from`
     succeeded): algorithm and key lookup, verification, the response's TSIG RR.
     `some r'` = verified (the scan continues at `r'`), `none` = processing stops. -/
@@ -412,16 +426,7 @@ def processTsig (cfg : Cfg) (now : Nat) (tsigRr : Tsig.ReadTsigRr) (messageWitho
       | none => badKey s
       | some key =>
         let res := Tsig.verifyRequest Tsig.realHmac tsigRr messageWithoutTsig.toList alg key.secret nowT
-        let (rcode, tsigErr, mode) : Nat × Nat × Option TsigMode := match res with
-          | .ok () => (RC "NOERROR", XRC "NOERROR",
-              some (.response (toWriterAlg alg) (Tsig.ReadTsigRr.mac tsigRr) key.secret))
-          | .err .BadSig => (RC "NOTAUTH", XRC "BADVERSBADSIG",
-              (WName.parse alg.name).map (fun x => .unsigned x.1))
-          | .err .BadTime => (RC "NOTAUTH", XRC "BADTIME",
-              some (.response (toWriterAlg alg) (Tsig.ReadTsigRr.mac tsigRr) key.secret))
-          | .err .FormErr => (RC "FORMERR", XRC "BADVERSBADSIG",
-              (WName.parse alg.name).map (fun x => .unsigned x.1))
-          | .panic => (0, 0, none)
+        let (rcode, tsigErr, mode) := tsigOutcome res alg tsigRr key.secret
         match mode, preparedFromRead tsigRr nowT tsigErr with
         | some m, some prep =>
           (do
